@@ -1390,6 +1390,10 @@ func (p *Parser) parseFormatStringOperator() (token.Token, string, string, error
 
 	formatted, err := p.fonts.FormatText(textToken.Literal, maxLineLength, cursorOverlapWidth, fontID, numLines)
 	if err != nil && p.enableEnvironmentErrors {
+		if fontIdToken.Type != token.STRING {
+			// The font id came from the defaults, so there is no font id token to point at.
+			fontIdToken = textToken
+		}
 		return token.Token{}, "", "", NewParseError(fontIdToken, err.Error())
 	}
 	return textToken, formatted, stringType, nil
